@@ -3,7 +3,7 @@
 (* Validation of what the real resolver stored in the AST against layer A. *)
 (* Every line of traces.ndjson is one run of the real front end:           *)
 (*   [prog  |-> the program (as emitted by ResolveGen),                    *)
-(*    types |-> [key |-> [cat, td, ref]],  ids |-> [key |-> extra],        *)
+(*    types |-> [key |-> [cat, td, ref, dr]], ids |-> [key |-> extra],     *)
 (*    exts  |-> [key |-> ref],             used |-> [file|inc:j |-> BOOLEAN]]*)
 (* A run is accepted iff every reference node of the program carries a     *)
 (* record layer A allows (Resolve!AllowedType / ExtraOK / AllowedExt, the   *)
@@ -17,7 +17,9 @@ Traces == ndJsonDeserialize("traces.ndjson")
 
 Has(rec, key) == key \in DOMAIN rec
 TypeOKAt(p, f, n, o) ==
-  Has(o.types, n.key) /\ [cat |-> o.types[n.key].cat, td |-> o.types[n.key].td, ref |-> o.types[n.key].ref] \in AllowedType(p, f, n.t)
+  /\ Has(o.types, n.key)
+  /\ [cat |-> o.types[n.key].cat, td |-> o.types[n.key].td, ref |-> o.types[n.key].ref] \in AllowedType(p, f, n.t)
+  /\ o.types[n.key].dr \in FinalDefs(p, f, n.t, Fuel)      \* what semantic.Deref reaches from the stored binding
 IdOKAt(p, f, n, o) == Has(o.ids, n.key) /\ ExtraOK(p, f, n.segs, o.ids[n.key])
 ExtOKAt(p, f, n, o) == Has(o.exts, n.key) /\ o.exts[n.key] \in AllowedExt(p, f, n.t)
 Through(p, f, j, o) ==        \* some stored binding of file f goes through its j-th include
